@@ -941,8 +941,6 @@ Theorem disconnect_detach_err_now :
   bodies (run ins_disconnect init_st) = [Response 1 CMD_DISCONNECT true; Response 2 CMD_THREADS false].
 Proof. vm_compute. reflexivity. Qed.
 
-(* A.5.2 STILL OPEN in the current source *)
-
 (* HISTORIC (intermediate repair 4335108, superseded by ae66bdd): the guard without the
    reset compared request seqs, not "did this handler answer": a request that fails before
    answering and carries the same seq as the last answered request got NO response.
@@ -959,6 +957,8 @@ Theorem repeated_seq_now :
     [Response 1 CMD_INITIALIZE true; Event EV_INITIALIZED 0; Response 1 CMD_LAUNCH false] /\
   forallb input_at_most_onceb ins_repeated_seq = true.
 Proof. vm_compute. auto. Qed.
+
+(* A.5.2 STILL OPEN in the current source *)
 
 (* a request that fails after its success response is now reported as a success only:
    continue before configurationDone says "success", [continued], and nothing follows *)
